@@ -216,24 +216,25 @@ def r4(ctx, rep):
         rep.instance(R4, ok=ok, nontrivial=f'{cls}.filters')
         if not ok:
             rep.finding(R4, f'C05.R4/{cls}/filters', m.relfile(CPL), f'cpl.Rules.{cls}', 'lacks the NodeSentence filter')
-    fn = m.func(CPL, 'Model._ensure_self_identity')
-    src = ast.unparse(fn)
-    ok = 'predicates[Predicate.Identity]' in src and 'for c in self.constants' in src and "interp[c, c] = 'T'" in src
-    rep.instance(R4, ok=ok, nontrivial='_ensure_self_identity')
-    if not ok:
-        rep.finding(R4, 'C05.R4/Model._ensure_self_identity', m.loc(CPL, fn), 'cpl.Model._ensure_self_identity',
-                    'no longer writes T for (c, c) of every constant')
-    fn = m.func(CPL, 'Model._ensure_self_existence')
-    src = ast.unparse(fn)
-    ok = 'predicates[Predicate.Existence]' in src and 'map(group, self.constants)' in src and "interp[params] = 'T'" in src
-    rep.instance(R4, ok=ok, nontrivial='_ensure_self_existence')
-    if not ok:
-        rep.finding(R4, 'C05.R4/Model._ensure_self_existence', m.loc(CPL, fn), 'cpl.Model._ensure_self_existence',
-                    'no longer writes T for every constant')
-    fn = m.func(CPL, 'Model.finish')
-    src = ast.unparse(fn)
-    ok = all(x in src for x in ('self._ensure_self_identity(w)', 'self._ensure_self_existence(w)', 'for w, frame in self.frames.items()', 'return super().finish()'))
-    rep.instance(R4, ok=ok, nontrivial='CPL.Model.finish')
-    if not ok:
-        rep.finding(R4, 'C05.R4/Model.finish', m.loc(CPL, fn), 'cpl.Model.finish',
-                    'no longer completes identity and existence in every frame before finishing')
+    # what the two closure rules rely on, decided on Model.finish() folded end to end (sa.finishfold): in every logic that
+    # lists them, after finish() `c = c` and `!c` are true at every world for every constant
+    from .. import finishfold
+    nfin = 0
+    for lg in ctx.lgs:
+        if not any(rc.qualname.split('.')[-1] in ('SelfIdentityClosure', 'NonExistenceClosure') for rc in lg.closure):
+            continue
+        res, cons = finishfold.fold_finish(m, ctx.lgs, lg)
+        rep.consult(*cons)
+        seen = set()
+        for ok, case, detail in res:
+            bad = [p_ for p_ in detail.split('; ') if ' is not true at world ' in p_ or 'finish() raises' in p_] if not ok else []
+            nfin += 1
+            rep.instance(R4, ok=not bad, nontrivial=(lg.short, 'finish', case))
+            for p_ in bad:
+                k = p_.split(' at world')[0][:40]
+                if k in seen:
+                    continue
+                seen.add(k)
+                rep.finding(R4, f'C05.R4/{lg.short}.Model.finish/{k}', m.relfile(lg.modelcls.module), f'{lg.name}.Model.finish',
+                            f'{case}: {p_} after finish() -- SelfIdentityClosure / NonExistenceClosure close branches on its negation')
+    rep.floor('C05.R4', 'finish() pre-states of the logics with identity/existence closure', nfin, 20)
